@@ -1,6 +1,8 @@
 package pipeline
 
 import (
+	"os"
+
 	"compiler/internal/context_v2"
 	"compiler/internal/mir"
 	"compiler/internal/phase"
@@ -14,9 +16,12 @@ import (
 // in an environment where each step that leaves the Go code - creating the output directory, writing the IL file,
 // the embedded QBE (exit code 0 or 1), the assembler / linker - succeeds or fails by a free choice.  Whenever the
 // phase fails (returns an error) an error diagnostic must have been recorded: the driver derives the exit status
-// from the diagnostics alone, so a failure without one ends in "exit 0, no message, no executable".
+// from the diagnostics alone, so a failure without one ends in "exit 0, no message, no executable"; and the
+// directory of generated files must be gone again (no artifact is left behind by a failed compilation).
 func HarnessC13CodegenFailure() {
-	ctx := context_v2.New(&context_v2.Config{Extension: ".fer", ProjectName: "p", OutputPath: "/zz/out/prog", ProjectRoot: "/zz", CodegenBackend: "qbe"}, false)
+	outDir := os.TempDir() + "/zz-verif-c13-out"
+	defer os.RemoveAll(outDir)
+	ctx := context_v2.New(&context_v2.Config{Extension: ".fer", ProjectName: "p", OutputPath: outDir + "/prog", ProjectRoot: outDir, CodegenBackend: "qbe"}, false)
 	scope := table.NewSymbolTable(ctx.Universe)
 	mod := &context_v2.Module{ImportPath: "p/m", FilePath: "p/m.fer", Type: context_v2.ModuleLocal, Phase: phase.PhaseMIRGenerated,
 		ModuleScope: scope, CurrentScope: scope, Artifacts: map[string]any{}}
@@ -32,5 +37,7 @@ func HarnessC13CodegenFailure() {
 	verifrt.Assert(err == nil || ctx.HasErrors(), "the code generation phase fails without recording an error diagnostic: the compiler exits 0 with no message and no executable")
 	if err == nil {
 		verifrt.Assert(!ctx.HasErrors(), "CALIBRATION: a successful code generation phase records an error")
+	} else {
+		verifrt.Assert(!verifrt.EnvExists(outDir+"/gen"), "a failed compilation leaves generated files behind (the gen directory with IL / assembly files)")
 	}
 }
